@@ -317,6 +317,11 @@ type Case struct {
 	// Sequence: what the same freshly compiled expressions were evaluated on
 	// before this case, in order (instants or seconds), this case last
 	Sequence []int64 `json:"sequence,omitempty"`
+	// parse family: one compiled Prog over Window forwards then backwards, entries written in StyleA/StyleB in turns
+	Window []int64  `json:"window,omitempty"`
+	StyleA string   `json:"text_style_a,omitempty"`
+	StyleB string   `json:"text_style_b,omitempty"`
+	Texts  []string `json:"texts,omitempty"`
 }
 
 type reporter func(sig, detail string)
@@ -651,6 +656,35 @@ func worker(w *runner.W) {
 		if stop {
 			return
 		}
+		// parse family: one compiled parsing expression over a window of instants, see parse.go
+		stride, tStride := 67, 1
+		if w.Quick() {
+			stride, tStride = 61, 6
+		}
+		cfgs := parseCfgs(z, !w.Quick())
+		for _, win := range parseWindows(z, ins, stride, tStride) {
+			caseNo++
+			if !w.Owns(caseNo) {
+				continue
+			}
+			if w.Expired() {
+				return
+			}
+			setGlobals()
+			for _, pc := range cfgs {
+				pc, win := pc, win
+				cur = func() Case { return parseCase(z, pc, win) }
+				nt, digest, evals := runParseCfg(z, pc, win, rep)
+				w.Eval(nt)
+				w.Add("parse_family_cases", 1)
+				w.Add("parse_family_template_evaluations", evals)
+				w.Outcome("parse", z.label, pc.tmpl, digest)
+				if w.WantSample() && nt && pc.mode == modeAuto && pc.a != pc.b && win[0]%7 == 0 {
+					w.Sample(parseCase(z, pc, win))
+				}
+			}
+			w.Add("parse_family_windows", 1)
+		}
 		// unparseable input
 		for _, g := range garbageProgs(z) {
 			caseNo++
@@ -699,6 +733,19 @@ func worker(w *runner.W) {
 		}
 		return true
 	})
+}
+
+func parseCase(z *zone, pc *parseCfg, win []int64) Case {
+	c := Case{Kind: "parse", Zone: z.label, Prog: pc.tmpl, StyleA: pc.a.id, StyleB: pc.b.id, Window: append([]int64{}, win...)}
+	for i, u := range win {
+		st := pc.a
+		if i%2 == 1 {
+			st = pc.b
+		}
+		off, abbr := z.at(u)
+		c.Texts = append(c.Texts, st.render(calOf(u, off, abbr)))
+	}
+	return c
 }
 
 func allProgs(zp *zoneProgs) []*prog {
@@ -775,6 +822,18 @@ func replay(w *runner.W, raw json.RawMessage) {
 				}
 			}
 		}
+	case "parse":
+		for _, z := range zonesFor(false) {
+			if z.label != c.Zone {
+				continue
+			}
+			for _, pc := range parseCfgs(z, true) {
+				if pc.tmpl == c.Prog && pc.a.id == c.StyleA && pc.b.id == c.StyleB {
+					runParseCfg(z, pc, c.Window, rep)
+					return
+				}
+			}
+		}
 	case "duration":
 		seq := c.Sequence
 		if len(seq) == 0 {
@@ -815,11 +874,15 @@ func main() {
 			if tier != "thorough" {
 				days, weeks, dur = "every 11th day", "every 5th ISO-week start", "-4000..4000"
 			}
+			pwin, ppairs := "every 61st chunk of 5 of the zone's sorted instants + the +-2 s around every 6th change of offset", "every detectable style with its successor in the list"
+			if tier == "thorough" {
+				pwin, ppairs = "every 67th chunk of 5 of the zone's sorted instants + the +-2 s around every change of offset", "all ordered pairs of the 17 detectable styles with the tz argument given, successor pairs with it omitted"
+			}
 			more := ""
 			if tier == "thorough" {
 				more = ", Europe/London, Pacific/Auckland, Asia/Kathmandu, Pacific/Apia, America/Sao_Paulo"
 			}
-			return "zones {tz omitted, utc, Etc/GMT+5, America/New_York, Europe/Berlin, Australia/Lord_Howe, Asia/Kolkata, local(=America/St_Johns via time.Local)" + more + "} from the embedded time/tzdata x unix seconds in [1970-01-01, 2100-12-31]: " + days + " at local 00:00:00, 12:00:00, 23:59:59; +-2 s around every local month start (so every quarter and year start), " + weeks + " (Monday 00:00 local) and every change of the zone's offset/abbreviation (found by bisection over every day) x {timeformat in all 23 named formats + default; time round trip of the printed text for RUBY, RFC822Z, RFC1123Z, RFC3339, RFC3339N, NGINX with and without tz; buckettime for 23 spellings of the 7 buckets; timeattr weekday, week, yearweek, quarter}; one (zone, second) = ~75 template evaluations through BuildKey. Order of evaluation: the instants of a zone are cut into blocks of 28 consecutive enumerated instants (+4 of overlap, so every +-2 s neighbourhood lies inside a block); for every block all templates are compiled from scratch and the SAME compiled expressions are evaluated on the block in increasing and then in decreasing order (every instant is checked after its predecessor and after its successor), one case = one evaluation of an instant in such a sequence; durations likewise in blocks of consecutive values, both orders; each unparseable input is evaluated right after a parseable one on the same compiled expression. Plus durationformat/duration on whole seconds " + dur + " and a sweep to +-9223372036 (5 spellings each), and lists of unparseable inputs/arguments per helper. non-trivial = no helper returned an error marker or panicked for the (zone, second) or duration case; an unparseable-input case counts when the helper was reached and answered"
+			return "zones {tz omitted, utc, Etc/GMT+5, America/New_York, Europe/Berlin, Australia/Lord_Howe, Asia/Kolkata, local(=America/St_Johns via time.Local)" + more + "} from the embedded time/tzdata x unix seconds in [1970-01-01, 2100-12-31]: " + days + " at local 00:00:00, 12:00:00, 23:59:59; +-2 s around every local month start (so every quarter and year start), " + weeks + " (Monday 00:00 local) and every change of the zone's offset/abbreviation (found by bisection over every day) x {timeformat in all 23 named formats + default; time round trip of the printed text for RUBY, RFC822Z, RFC1123Z, RFC3339, RFC3339N, NGINX with and without tz; buckettime for 23 spellings of the 7 buckets; timeattr weekday, week, yearweek, quarter}; one (zone, second) = ~75 template evaluations through BuildKey. Order of evaluation: the instants of a zone are cut into blocks of 28 consecutive enumerated instants (+4 of overlap, so every +-2 s neighbourhood lies inside a block); for every block all templates are compiled from scratch and the SAME compiled expressions are evaluated on the block in increasing and then in decreasing order (every instant is checked after its predecessor and after its successor), one case = one evaluation of an instant in such a sequence; durations likewise in blocks of consecutive values, both orders; each unparseable input is evaluated right after a parseable one on the same compiled expression. Plus durationformat/duration on whole seconds " + dur + " and a sweep to +-9223372036 (5 spellings each), and lists of unparseable inputs/arguments per helper. non-trivial = no helper returned an error marker or panicked for the (zone, second) or duration case; an unparseable-input case counts when the helper was reached and answered. PARSE FAMILY (history x configuration of every helper that reads date text through smartDateParseWrapper): per zone, windows of 5 consecutive enumerated instants (" + pwin + ") x {time; buckettime with buckets s, minutes, h, day, mo, years, nanos in rotation} x format argument {omitted, \"\", cache, auto, the named formats ANSIC UNIX RUBY RFC822 RFC822Z RFC1123 RFC1123Z RFC3339 RFC3339N NGINX, custom layouts 2006-01-02 15:04:05 | 2006-01-02T15:04:05 | 2006/01/02 15:04:05 | 01/02/2006 15:04:05 | 20060102150405 | 2006-01-02 15:04 | 2006-01-02 15:04:05 -0700 | 02/Jan/2006:15:04:05 -0700 | 2006-01-02 15:04:05 MST} x tz argument {the zone's own, omitted} x text written by the reference in 19 styles (7 without offset, 8 with numeric offset, 4 with the zone abbreviation); an explicit format gets the text of that format, the detecting modes get every style dateparse has a shape for (cache/\"\"/omitted: not the abbreviation styles); auto additionally over sequences alternating two styles A,B,A,B,A (" + ppairs + "). One case = ONE compiled expression evaluated over the window forwards and then backwards (9 evaluations), each answer compared (H) with a fresh compile of the same template evaluating only that text and (R) with the reference (numeric offset: the instant to the format's precision; no offset: an instant whose calendar fields in the tz argument's zone, UTC when omitted, are the text's; abbreviation: not constrained; a detecting mode may answer the error marker, an explicit format may not); non-trivial = every answer of the long-lived expression was a value"
 		},
 		Assumptions: func(string) []string {
 			return []string{
@@ -828,7 +891,8 @@ func main() {
 				"RFC822Z carries a two-digit year and minutes: the round trip is demanded to the minute and only for years 1969..2068",
 				"buckettime is given the instant as RFC3339 text with the zone's own offset and the zone as tz; text whose offset differs from the tz argument is not constrained (the statement and the documentation disagree on which wins)",
 				"blank- and zero-padded days are both accepted in ANSIC/UNIX/NGINX; Sunday may be 0 or 7; only digit groups of buckettime/yearweek output are compared",
-				"durations are claimed for |seconds| <= 9223372036 (what a 64-bit nanosecond duration holds); cache/auto format detection of `time` is not part of the statement and not covered",
+				"durations are claimed for |seconds| <= 9223372036 (what a 64-bit nanosecond duration holds); which layouts cache/auto detection recognises is not part of the statement: a detecting mode may answer the error marker, but must answer what a fresh compile answers and, when it answers, the right instant",
+				"parse family: the documentation declares format omitted / \"\" / cache stateful (\"The first seen date will determine the format for all dates going forward\"), so those modes are only run over texts of one shape (same style, same field widths; entries of another shape are left out of the sequence) and never over abbreviation styles; text with a zone abbreviation is judged by history independence only (the statement speaks of numeric offsets); offset-less text is read in the tz argument's zone per the documentation (\"processed as UTC, unless explicit in the datetime itself, or overridden via a parameter\"), both instants accepted where a wall clock repeats; time.Local is pinned to America/St_Johns for tz=local",
 			}
 		},
 		Worker:         worker,
